@@ -65,7 +65,90 @@ def sim_kw(seed):
     return kw
 
 
+def auth_phase(sim):
+    """A re-exchange (started by either side) that crosses the client's authentication: service request / accept and
+    the authentication messages are traffic in flight too.  Same two oracles; in addition the authentication must
+    complete."""
+    sim.p_switch = (0.02, 0.1, 0.3)[sim.choose(3)]
+    lat_c = (0.0, 0.01, 0.1)[sim.choose(3)]
+    lat_s = (0.0, 0.01, 0.1)[sim.choose(3)]
+    link = Link(sim, latency=(lat_c, lat_s))
+    plog = []
+    p = ssh.Pair(sim, link=link, client_pk=ssh.observing_packetizer("c", plog), server_pk=ssh.observing_packetizer("s", plog))
+    p.plog = plog
+    method = ("password", "publickey", "none-then-password")[sim.choose(3)]
+    who = sim.choose(3)
+    d_rk = [(0.0, 0.001, 0.02, 0.1, 0.3)[sim.choose(5)] for _ in range(2)]
+    d_au = (0.0, 0.001, 0.02, 0.1)[sim.choose(4)]
+    desc = {"family": "re-exchange during authentication", "latency": [lat_c, lat_s], "method": method,
+            "rekey_by": ("client", "server", "both")[who], "delays": [d_rk, d_au]}
+    if method == "publickey":
+        p.server.allowed_keys.append(ssh.key("ed25519_2"))
+    p.start(timeout=60)
+    p.wait_server()
+    res = {}
+
+    def rekey(t, d, name):
+        sim.sleep(d)
+        try:
+            t.renegotiate_keys()
+            res[name] = "ok"
+        except Exception as e:
+            res[name] = e
+
+    def auth():
+        sim.sleep(d_au)
+        try:
+            if method == "password":
+                p.tc.auth_password("alice", "pw")
+            elif method == "publickey":
+                p.tc.auth_publickey("alice", ssh.key("ed25519_2"))
+            else:
+                try:
+                    p.tc.auth_none("alice")
+                except Exception as e:
+                    if type(e).__name__ != "BadAuthenticationType":
+                        raise
+                p.tc.auth_password("alice", "pw")
+            res["auth"] = "ok"
+        except Exception as e:
+            res["auth"] = e
+    tasks = [sim.spawn(auth, "auth")]
+    if who in (0, 2):
+        tasks.append(sim.spawn(rekey, "rekey_c", p.tc, d_rk[0], "rekey_c"))
+    if who in (1, 2):
+        tasks.append(sim.spawn(rekey, "rekey_s", p.ts, d_rk[1], "rekey_s"))
+    end = sim.now + LIMIT
+    while any(t.state != core.DONE for t in tasks) and sim.now < end:
+        sim.sleep(0.25)
+    # oracle 1 here also covers the authentication layer (types 50-79) inside the sender's own exchange
+    check_wire(sim, plog, desc)
+    stuck = [t for t in tasks if t.state != core.DONE]
+    if stuck:
+        raise Violation(("C11", "task-stuck", "auth-phase") + tuple(sorted(set("%s@%s" % (t.name, core.where_parked(t)) for t in stuck))),
+                        "after %.0f virtual seconds still blocked: %s" % (LIMIT, [t.name for t in stuck]), desc)
+    for k, v in sorted(res.items()):
+        if v != "ok":
+            raise Violation(("C11", "operation-failed", "auth-phase", k.rstrip("_cs"), type(v).__name__),
+                            "%s failed with %r while a re-exchange crossed the authentication; client exc=%r server exc=%r"
+                            % (k, v, p.tc.get_exception(), p.ts.get_exception()), desc)
+    if not (p.tc.is_active() and p.ts.is_active() and p.tc.is_authenticated()):
+        raise Violation(("C11", "session-dropped", "auth-phase"),
+                        "after authentication and re-exchange: client active=%s authenticated=%s, server active=%s"
+                        % (p.tc.is_active(), p.tc.is_authenticated(), p.ts.is_active()), desc)
+    # the session must be usable
+    ch = p.tc.open_session(timeout=30)
+    sch = p.ts.accept(30)
+    if sch is None or not ssh.echo_round(sim, ch, sch, 100, 100):
+        raise Violation(("C11", "session-dropped", "auth-phase", "echo"), "echo on a fresh channel failed afterwards", desc)
+    sim.probe("auth_phase_runs")
+    p.close()
+    return {"sample": desc, "nontrivial": True, "counts": ["auth-phase"]}
+
+
 def scenario(sim):
+    if sim.seed % 6 == 5:
+        return auth_phase(sim)
     sim.p_switch = (0.02, 0.1, 0.3)[sim.choose(3)]
     if sim.trace_files:
         sim.p_preempt = (0.02, 0.1, 0.3)[sim.choose(3)]
@@ -339,7 +422,8 @@ def short(e):
     return s[:30]
 
 
-NAMES = {80: "GLOBAL_REQUEST", 81: "REQUEST_SUCCESS", 82: "REQUEST_FAILURE", 90: "CHANNEL_OPEN", 91: "OPEN_SUCCESS",
+NAMES = {50: "USERAUTH_REQUEST", 51: "USERAUTH_FAILURE", 52: "USERAUTH_SUCCESS", 53: "USERAUTH_BANNER", 60: "USERAUTH_60",
+         61: "USERAUTH_61", 80: "GLOBAL_REQUEST", 81: "REQUEST_SUCCESS", 82: "REQUEST_FAILURE", 90: "CHANNEL_OPEN", 91: "OPEN_SUCCESS",
          92: "OPEN_FAILURE", 93: "WINDOW_ADJUST", 94: "DATA", 95: "EXTENDED_DATA", 96: "EOF", 97: "CLOSE",
          98: "CHANNEL_REQUEST", 99: "CHANNEL_SUCCESS", 100: "CHANNEL_FAILURE"}
 
